@@ -24,6 +24,26 @@ theorem chunkings_agree (D : Decoder) (c₁ c₂ : List (List Byte)) (h : c₁.f
     D.decodeIncremental c₁ = D.decodeIncremental c₂ := by
   rw [chunked_decode_eq_whole, chunked_decode_eq_whole, h]
 
+/-- live output is never retracted: the text decoded (and mirrored to the user's terminal) after ANY number of reads
+    is an initial part of the final captured text, whatever the reads that follow - a character held back at a read
+    boundary is only ever delayed, and nothing already shown is later replaced. -/
+theorem live_output_is_prefix_of_final (D : Decoder) (pre post : List (List Byte)) :
+    ∃ rest, D.decodeIncremental (pre ++ post) = D.decodeUnflushed pre ++ rest := by
+  refine ⟨(D.run (D.run D.init pre.flatten).1 post.flatten).2 ++
+      D.flush (D.run (D.run D.init pre.flatten).1 post.flatten).1, ?_⟩
+  simp [Decoder.decodeIncremental, Decoder.decodeUnflushed, Decoder.runChunks_flatten, Decoder.run_append,
+    List.append_assoc]
+
+/-- ... and the text shown after more reads extends the text shown after fewer -/
+theorem live_output_grows (D : Decoder) (pre post : List (List Byte)) :
+    ∃ more, D.decodeUnflushed (pre ++ post) = D.decodeUnflushed pre ++ more := by
+  refine ⟨(D.run (D.run D.init pre.flatten).1 post.flatten).2, ?_⟩
+  simp [Decoder.decodeUnflushed, Decoder.runChunks_flatten, Decoder.run_append]
+
+/-- non-vacuity: after the read that ends inside `é` the user has seen "caf"; the final text extends it -/
+example : utf8.decodeUnflushed [[0x63, 0x61, 0x66, 0xC3]] = "caf".toList ∧
+    utf8.decodeIncremental ([[0x63, 0x61, 0x66, 0xC3]] ++ [[0xA9, 0x21]]) = "caf".toList ++ "é!".toList := by decide
+
 /-- the per-read decoding the code used before the repair tears a character split across two reads -/
 theorem perchunk_counterexample :
     utf8.decodePerChunk [[0xC3], [0xA9]] = [repl, repl] ∧ utf8.decodeWhole [0xC3, 0xA9] = ['é'] := by decide
